@@ -51,9 +51,11 @@ func init() {
 	h.Register("C10", func(tier string) ([]*h.Scn, []*h.Plain) {
 		var out []*h.Scn
 		thorough := tier == "thorough"
-		sets := [][]string{{"I"}, {"N"}, {"I", "N"}, {"N", "N"}}
+		// document order of the boundary events matters to the engine's wiring (seed c10-1), so
+		// both orders of a mixed pair are enumerated
+		sets := [][]string{{"I"}, {"N"}, {"I", "N"}, {"N", "N"}, {"N", "I"}, {"I", "I"}}
 		for _, hostKind := range []string{"task", "sub"} {
-			for _, kinds := range sets {
+			for si, kinds := range sets {
 				for _, pre := range []bool{false, true} {
 					g := build(hostKind, kinds, pre)
 					defs := g.Parse()
@@ -73,7 +75,7 @@ func init() {
 								n = 4
 							}
 						}
-						if d == 1 && pre && !thorough {
+						if d == 1 && !thorough && (pre || si >= 4) {
 							continue
 						}
 						el := &drv.EventLock{Sig: "C10/" + hostKind, G: g, Defs: defs, Events: alphabet, MaxEvents: n, PerEvent: 2, Tags: strings.Join(kinds, "")}
